@@ -57,7 +57,7 @@ impl Dl {
     }
 }
 
-/// Accepted sets: default, ASCII variants, sets containing `-`, quotes, `<`, letters, equal start
+/// Accepted sets: default, ASCII variants, sets containing `-`, quotes, `<`, letters, dots, blanks, equal start
 /// and end delimiters, single 2-byte characters (sharing the lead byte C2 with NBSP / U+0085).
 fn delimiter_sets() -> Vec<Dl> {
     vec![
@@ -74,6 +74,10 @@ fn delimiter_sets() -> Vec<Dl> {
         Dl::new("b(", ")b", "v(", ")v", "c(", ")c"),
         Dl::new(":%", "%;", "::", ";;", ":#", "#;"),
         Dl::new("-%", "%-", "-{", "}-", "-#", "#-"),
+        // dots (a number token swallows the first byte of `.}`) and end delimiters that start
+        // with a blank (never found inside a tag: whitespace is skipped before the end test)
+        Dl::new("{.", ".}", "{:", ":}", "{;", ";}"),
+        Dl::new("{%", " }", "{{", " ]", "{#", " )"),
     ]
 }
 
